@@ -11,7 +11,9 @@ Decides (structure only):
  K8    config discovery order agrees between CLI and library; every reader of a user config file normalises keys;
        the top-level ignore list is read from the same carriers as the rest;
  K9    threshold fields are only compared in the direction their name states (max_*: strict exceed; min_*: >=);
- K10   parse failures of a config file are not turned into defaults.
+ K10   parse failures of a config file (and non-mapping documents) are not turned into defaults;
+ K11   rules do not memoise the parsed configuration across files (it depends on the file's language);
+ K12   from_dict never uses `get(key) or fallback` (falsy configured values must take effect).
 Not decided: the verdict a threshold produces once it reaches the comparison (C01/C16/...).
 """
 
@@ -249,6 +251,33 @@ def check(run, ctx):
     K10 = run.rule("K10", "no handler turns a config-file parse/read failure into a default value", floor=4,
                    decides="an unparsable configuration file ends the run with exit code 2")
     _k10(run, ctx, K10)
+    K11 = run.rule("K11", "a rule's configuration is a function of (loaded config, file language) for every file: _load_config/_get_config do not memoise the parsed config on the rule instance", floor=15,
+                   decides="per-language thresholds apply to each file of a mixed-language run, whatever the file order")
+    from . import shared
+
+    for rec in shared.config_memoisation(ctx, L):
+        sym = f"{rec['rule']}.{rec['name']}"
+        if rec["bad"]:
+            run.finding(K11, sym, f"memoised:{rec['store']}", f"{rec['func'].qual} caches the parsed configuration on the rule instance ({rec['store']}) without keying it by the file's language: the first file's language decides the per-language thresholds of every later file", rec["func"].loc)
+        else:
+            run.ok(K11, sym, "no instance-level memoisation")
+
+    K12 = run.rule("K12", "from_dict does not use `mapping.get(key) or fallback`: a configured falsy value (false, 0, []) must not fall through to the fallback", floor=14,
+                   decides="`enabled: false`, `allow_in_scripts: false`, empty lists and zero thresholds set by the user take effect, also inside language overrides")
+    for cq, c in sorted(repo.classes.items()):
+        if not (cq.startswith("src.linters.") and c.name.endswith("Config") and "from_dict" in c.methods):
+            continue
+        funcs = [c.methods["from_dict"]] + [g for g in repo.funcs.values() if g.module is c.module and g.cls is None and g.parent is None]
+        bad = None
+        for g in funcs:
+            for n in ast.walk(g.node):
+                if isinstance(n, ast.BoolOp) and isinstance(n.op, ast.Or) and any(isinstance(v, ast.Call) and call_name(v) == "get" and len(v.args) == 1 and isinstance(v.args[0], ast.Constant) for v in n.values[:-1]):
+                    bad = (g, n)
+        if bad:
+            run.finding(K12, c.name, f"get-or-fallback:{norm(bad[1])}", f"{bad[0].qual}: `{norm(bad[1])}` treats a configured false/0/[] as 'not set' and silently uses the fallback", f"{bad[0].module.rel}:{bad[1].lineno}")
+        else:
+            run.ok(K12, c.name, "missing keys are defaulted with get(key, default)")
+
     run.extra["call_resolution"] = f"{cg.n_resolved}/{cg.n_calls}"
     return __doc__
 
@@ -563,6 +592,16 @@ def _k9(run, ctx, L, K9):
 
 def _k10(run, ctx, K10):
     repo = ctx.repo
+    # only an EMPTY document may become {}: a list/scalar at the top level is a malformed configuration
+    py = repo.func("src.core.config_parser.parse_yaml")
+    for n in ast.walk(py.node):
+        if isinstance(n, ast.Return) and isinstance(n.value, ast.IfExp) and isinstance(n.value.orelse, ast.Dict) and not n.value.orelse.keys:
+            t = n.value.test
+            none_test = isinstance(t, ast.Compare) and len(t.ops) == 1 and isinstance(t.ops[0], ast.IsNot) and isinstance(t.comparators[0], ast.Constant) and t.comparators[0].value is None
+            if none_test:
+                run.ok(K10, "core.config_parser.parse_yaml empty-document default", f"{{}} only when {norm(t)} is false")
+            else:
+                run.finding(K10, "core.config_parser.parse_yaml", f"non-mapping-defaulted:{norm(t)}", f"parse_yaml returns {{}} whenever `{norm(t)}` is false: a top-level list or scalar (e.g. a stray leading '- ') is silently treated as an empty configuration instead of a configuration error", py.loc)
     readers = [
         "src.linter_config.loader.load_config",
         "src.cli.linters.code_smells._load_dry_config_file",
